@@ -108,7 +108,8 @@ class Recorder:
                 return
             stack = st["stack"]
             if stack:
-                if id(obj) not in members(stack[-1]):
+                # (a LazyBound holds no member: the construct it stands for is whatever its function returns when it is reached)
+                if id(obj) not in members(stack[-1]) and type(stack[-1]).__name__ != "LazyBound":
                     st["skip"] = 1
                     return
             elif obj is not st["root"]:
